@@ -87,7 +87,7 @@ Bad(op, o, T, exp) ==
                       \cup (IF k \notin T.touched /\ T.touched # Keys /\ FlushOnClose /\ T.truth[k] # 0
                             THEN {<<"C15", "older_value_after_close">>} ELSE {})
             ELSE IF r = 0 /\ exp # 0 /\ k \notin T.touched /\ T.touched # Keys /\ FlushOnClose
-                    /\ KeyLoc[k] # "inmem" /\ ~Collides(k) THEN {<<"C15", "not_persisted_by_close">>}
+                    /\ KeyLoc[k] # "inmem" /\ ~Collides(k) /\ Hash[k] \notin Reject THEN {<<"C15", "not_persisted_by_close">>}
             ELSE {<<"drift", "lookup">>}
         enqTags == IF SameBag(o.enq, T.enq) THEN {} ELSE {<<"C12", "disk_offers">>}
         \* a lookup of a disk-only key that hits offers nothing to the disk tier (nothing is populated, so
@@ -97,6 +97,8 @@ Bad(op, o, T, exp) ==
         wrTags ==
             IF \E i \in DOMAIN o.wr : known(o.wr[i]) /\ KeyLoc[T.vkey[o.wr[i]]] = "inmem"
             THEN {<<"C12", "inmem_entry_on_device">>}
+            ELSE IF \E i \in DOMAIN o.wr : known(o.wr[i]) /\ Hash[T.vkey[o.wr[i]]] \in Reject
+            THEN {<<"C12", "rejected_entry_on_device">>}
             \* with neither the flush switch nor the device gate engaged everything submitted is written within
             \* the step, so which versions reach the device is the policy's decision (e.g. an entry loaded from
             \* disk is not rewritten on eviction); with a window open, when they are written is mechanism
@@ -111,7 +113,7 @@ Bad(op, o, T, exp) ==
                /\ \E i \in DOMAIN T.wr : /\ \A j \in DOMAIN o.wr : o.wr[j] # T.wr[i]
                                          /\ T.wr[i] \notin seenwr       \* (already durable: nothing to write)
                                          /\ LET kk == T.vkey[T.wr[i]] IN
-                                            T.truth[kk] = T.wr[i] /\ kk \notin T.shed /\ ~Collides(kk)
+                                            T.truth[kk] = T.wr[i] /\ kk \notin T.shed /\ ~Collides(kk) /\ Hash[kk] \notin Reject
             THEN {<<"C15", "latest_version_not_written_by_close">>} ELSE {}
         \* close() returns only after the device writes in flight have completed (judged on the observation alone)
         pendTags ==
@@ -129,7 +131,7 @@ Bad(op, o, T, exp) ==
     IN resTags \cup enqTags \cup hitTags \cup wrTags \cup closeTags \cup pendTags \cup memTags \cup dskTags
 
 Robust == {"stale_or_removed_value", "foreign_value", "older_value_after_close", "hit_reoffered_to_disk",
-           "inmem_entry_on_device", "ondisk_entry_retained_in_memory",
+           "inmem_entry_on_device", "rejected_entry_on_device", "ondisk_entry_retained_in_memory",
            "close_returned_while_device_writes_pending"}
 
 TraceInit == S = S0 /\ out = [op |-> [a |-> "none"], res |-> 0] /\ l = 1 /\ bad = {} /\ dead = FALSE /\ seenwr = {}
